@@ -208,36 +208,51 @@ func c16Once(p *Prog, c *Check) {
 		ok := stripConv(arg).s == start.s
 		c.Result(ok, rule, fmt.Sprintf("FetchEvents:candidates#%d", i+1), p.siteOf(ci), shortFn(fn), "candidate triggers", "candidate triggers are not selected as 'not expired at the range START': a trigger expiring inside the range would be dropped (or a wrong bound used): "+arg.s, "GetActiveEventTriggerRegisteredEvents(start)")
 	}
-	// FilterLogs over exactly [start, end]
+	// FilterLogs over exactly [start, end] — in FetchEvents or in a helper it calls
 	n := 0
-	for _, ci := range callsTo(fn, "FilterLogs") {
-		n++
-		q := ci.Common().Args[len(ci.Common().Args)-1]
-		okR := false
-		// the query value is a local struct filled by ToFilterQuery()#0 and two field stores
-		var from, to *Term
-		if ld, isLd := q.(*ssa.UnOp); isLd {
-			if al, isAl := ld.X.(*ssa.Alloc); isAl {
-				for _, r := range *al.Referrers() {
-					if fa, isFA := r.(*ssa.FieldAddr); isFA {
-						for _, r2 := range *fa.Referrers() {
-							if st, isSt := r2.(*ssa.Store); isSt && st.Addr == ssa.Value(fa) {
-								switch fieldName(al.Type(), fa.Field) {
-								case "FromBlock":
-									from = fi.T(st.Val)
-								case "ToBlock":
-									to = fi.T(st.Val)
+	tree := p.CG().Reachable([]*ssa.Function{fn}, func(f *ssa.Function) bool { return !inModule(f) || isGeneratedFile(p.fileOf(f)) })
+	guardLiftScope = map[*ssa.Function]bool{}
+	for _, f := range tree {
+		guardLiftScope[origin(f)] = true
+	}
+	defer func() { guardLiftScope = nil }()
+	for _, f := range tree {
+		ffi := p.Info(f)
+		for _, ci := range callsTo(f, "FilterLogs") {
+			n++
+			c.Analysed(shortFn(f))
+			q := ci.Common().Args[len(ci.Common().Args)-1]
+			okR := false
+			// the query value is a local struct filled by ToFilterQuery()#0 and two field stores
+			var from, to *Term
+			if ld, isLd := q.(*ssa.UnOp); isLd {
+				if al, isAl := ld.X.(*ssa.Alloc); isAl {
+					for _, r := range *al.Referrers() {
+						if fa, isFA := r.(*ssa.FieldAddr); isFA {
+							for _, r2 := range *fa.Referrers() {
+								if st, isSt := r2.(*ssa.Store); isSt && st.Addr == ssa.Value(fa) {
+									switch fieldName(al.Type(), fa.Field) {
+									case "FromBlock":
+										from = ffi.T(st.Val)
+									case "ToBlock":
+										to = ffi.T(st.Val)
+									}
 								}
 							}
 						}
 					}
 				}
 			}
+			if from != nil && to != nil {
+				isBound := func(bound *Term) func(g *ssa.Function, t *Term) bool {
+					return func(g *ssa.Function, t *Term) bool {
+						return origin(g) == fn && ParsePat("SetUint64(_, $s)").Match(t, Binds{"s": bound})
+					}
+				}
+				okR = p.termLifted(f, from, 0, isBound(start)) && p.termLifted(f, to, 0, isBound(end))
+			}
+			c.Result(okR, rule, fmt.Sprintf("FetchEvents:log-range#%d", n), p.siteOf(ci), shortFn(f), "FilterLogs block range", "logs are not fetched for exactly the synced range [start, end]: from="+termStr(from)+" to="+termStr(to), "FromBlock = start, ToBlock = end")
 		}
-		if from != nil && to != nil {
-			okR = ParsePat("SetUint64(_, $s)").Match(from, Binds{"s": start}) && ParsePat("SetUint64(_, $e)").Match(to, Binds{"e": end})
-		}
-		c.Result(okR, rule, fmt.Sprintf("FetchEvents:log-range#%d", n), p.siteOf(ci), shortFn(fn), "FilterLogs block range", "logs are not fetched for exactly the synced range [start, end]: from="+termStr(from)+" to="+termStr(to), "FromBlock = start, ToBlock = end")
 	}
 	c.Floor(rule, n, 1)
 	// rollback of every processor (shared with C15-R3b.multi)
